@@ -271,7 +271,13 @@ class ManagedBSE:
             if result[0] != 'ok': return s.end_op(st, t, a, result, oid=data['oid'])
             s.set_op(st, t, a, 'dropping', res=('ok', 'taken'), oid=data['oid']); s.M.start_drop(st, th, [result[1]]); return [st]
         if phase == 'simple':
-            if a[0] == 'close' and result[0] == 'ok': st.gset('closed_ret', True)
+            if a[0] == 'close' and result[0] == 'ok':
+                st.gset('closed_ret', True)
+                # every get() that is waiting for a slot at this moment must end with Closed
+                calls = dict(st.gget('calls', {})); q = set(s.queued_tasks(st))
+                for o in calls:
+                    if o in q: calls[o] = dict(calls[o], waiting_at_close=True)
+                st.gset('calls', calls)
             return s.end_op(st, t, a, result)
         if phase == 'retaining':
             if result[0] != 'ok': return s.end_op(st, t, a, result)
@@ -316,7 +322,10 @@ class ManagedBSE:
         if st.gget('closed_ret'): return
         cm = s.cur_max(st); live = len(s.live_ids(st)); fl = st.gget('flags', ())
         if s.M.feasible(st, z(binop('Lt', I(n), cm))):
-            if s.M.feasible(st, z(binop('Lt', I(live), cm))) and 'shrink_unused' not in fl: fl = fl + ('shrink_unused',)
+            # K-C07a: the shrink loop stops as soon as size <= n, so never-used capacity survives -- unless more than n objects
+            # are checked out / in hand at that moment: then the loop runs until the semaphore is empty and removes it too
+            notidle = live - len(st.gget('idleq', ()))
+            if s.M.feasible(st, z(binop('Lt', I(live), cm))) and n >= notidle and 'shrink_unused' not in fl: fl = fl + ('shrink_unused',)
             if s.semaphore(st).f[3] and 'shrink_assigned_waiter' not in fl: fl = fl + ('shrink_assigned_waiter',)
             if any(st.threads[x].stack and (st.threads[x].local.get('op') or ((None,),))[0][0] in ('drop', 'take') for x in s.tasks) and 'shrink_overlaps_release' not in fl:
                 fl = fl + ('shrink_overlaps_release',)
@@ -724,6 +733,10 @@ def _digest(s, st0, a, st):
                 if live > rz[-1]:
                     V.append(s.c07_known(st, s.vio('C07', f'a get() admitted after resize({rz[-1]}) returned raised the number of live objects to {live}', st)))
             _check_handout_metrics(s, st, shadow, objs, handed, last, vio)
+        if (cur['after_close'] or cur.get('waiting_at_close')) and res[0] in ('ok', 'err') and res[:2] not in (('err', 'Closed'), ('err', 'NoRuntimeSpecified')) and handed is None:
+            vio('C06', f'a get() {"issued after" if cur["after_close"] else "waiting for a slot when"} close() returned ended with {res[:2]}, not Closed')
+        elif cur.get('waiting_at_close') and handed is not None:
+            vio('C06', 'a get() waiting for a slot when close() returned yielded an object')
         for oid in cur['inhand']:
             if oid == handed: continue
             r = objs[oid]
@@ -759,6 +772,10 @@ def _digest(s, st0, a, st):
     if a[0] == 'retain' and res and res[0] == 'ok' and done:
         pr = tuple(last['pred_removed']); rm = tuple(last['removed'])
         if pr != rm: vio('C09', f'retain() removed {rm} but the predicate rejected {pr}')
+        if not thread_mode:
+            # at task level retain() is atomic: the predicate must have been consulted exactly once for every idle object
+            shown = sorted(e[1] for e in ev if e[0] == 'pred_call'); idle0 = sorted(st.gget('idleq', ()))
+            if shown != idle0: vio('C09', f'retain() consulted the predicate for {tuple(shown)} but the idle objects were {tuple(idle0)}')
         kept = sum(1 for e in ev if e[0] == 'env' and e[1] == 'pred' and e[3] == 'keep')
         if s.M.feasible(st, z(binop('Ne', last['retained'], I(kept)))):
             vio('C09', f'retain() reported retained={last["retained"]!r} but the predicate kept {kept}')
